@@ -94,6 +94,23 @@ class Unit:
         src = ast.unparse(n)
         return any(re.fullmatch(p, src, re.S) for p in self.ignore_stmts)
 
+    def resolve_method(self, name):
+        """(FunctionDef, is_static) of method `name` of the class this unit's function belongs to, from the current source; None if there is none"""
+        cls_name = self.qual.split('.')[0]
+        try:
+            tree = ast.parse(load_source(self.file, getattr(self, '_override', None)))
+        except (SyntaxError, FileNotFoundError):
+            return None
+        for x in ast.walk(tree):
+            if isinstance(x, ast.ClassDef) and x.name == cls_name:
+                for y in x.body:
+                    if isinstance(y, (ast.FunctionDef, ast.AsyncFunctionDef)) and y.name == name:
+                        decos = {ast.unparse(d) for d in y.decorator_list}
+                        if decos - {'staticmethod'}:
+                            return None
+                        return y, 'staticmethod' in decos
+        return None
+
     # -- hooks with defaults
     def setup(self, ex):
         raise NotImplementedError
@@ -137,6 +154,7 @@ class Unit:
         """Returns dict(status, obligations, covers, ignored, sha, error)."""
         res = {'unit': self.name, 'status': 'ok', 'obligations': [], 'covers': {}, 'ignored': [], 'sha': None,
                'error': None, 'paths': 0, 'lineno': None, 'unreached': []}
+        self._override = override
         try:
             fn, sha, seg = self.load(override)
         except (KeyError, SyntaxError, FileNotFoundError) as e:
